@@ -5,6 +5,8 @@ package c03
 import (
 	"bufio"
 	"bytes"
+	"compress/gzip"
+	"compress/zlib"
 	"errors"
 	"fmt"
 	"io"
@@ -21,6 +23,7 @@ import (
 	"github.com/google/martian/v3"
 	"github.com/google/martian/v3/fifo"
 	"github.com/google/martian/v3/har"
+	"github.com/google/martian/v3/martianlog"
 	"github.com/google/martian/v3/trafficshape"
 	"pgregory.net/rapid"
 
@@ -75,6 +78,15 @@ type Case struct {
 	// its fresh connection before it sends request 1, and the origin waits Slow
 	// ms after reading the request before it fails: Idle+Slow exceeds Timeout,
 	// Slow alone is well within it.
+	// Coding: the response (and, with Post, the request) announces this
+	// Content-Encoding (deflate | gzip | DEFLATE | x-gzip) and its body is the
+	// first Body bytes of a stream in that coding: a complete one when Body is
+	// large enough, else a body that is cut short at the source or is not the
+	// coding at all (one byte, two bytes ...).
+	Coding string `json:"coding,omitempty"`
+	// Decode: the modifier chain is the one cmd/proxy wires: a martianlog logger
+	// that decodes bodies (before the stamp), besides the HAR logger of Logger.
+	Decode bool `json:"decode,omitempty"`
 	Timeout int `json:"timeout,omitempty"`
 	Idle    int `json:"idle,omitempty"`
 	Slow    int `json:"slow,omitempty"`
@@ -111,6 +123,28 @@ func init() { time.Local = time.FixedZone("verif-east", 5*3600) }
 const marker2 = "MARKER-TWO-7f3a91c2"
 const marker3 = "MARKER-THREE-55e0b7"
 
+// wireBody is the body the origin sends (before framing).
+func (c *Case) wireBody() []byte {
+	if c.Coding == "" {
+		return kit.Text(c.Seed+11, c.Body)
+	}
+	var b bytes.Buffer
+	text := kit.Text(c.Seed+11, 40)
+	if strings.Contains(strings.ToLower(c.Coding), "gzip") {
+		w := gzip.NewWriter(&b)
+		w.Write(text)
+		w.Close()
+	} else {
+		w := zlib.NewWriter(&b)
+		w.Write(text)
+		w.Close()
+	}
+	if c.Body < b.Len() {
+		return b.Bytes()[:c.Body]
+	}
+	return b.Bytes()
+}
+
 func (c *Case) template() (raw []byte, headLen int) {
 	var b bytes.Buffer
 	if c.Framing == "connect-200" {
@@ -125,7 +159,10 @@ func (c *Case) template() (raw []byte, headLen int) {
 	if c.Pad > 0 {
 		fmt.Fprintf(&b, "X-Pad: %s\r\n", kit.Text(7, c.Pad))
 	}
-	body := kit.Text(c.Seed+11, c.Body)
+	body := c.wireBody()
+	if c.Coding != "" {
+		fmt.Fprintf(&b, "Content-Encoding: %s\r\n", c.Coding)
+	}
 	if c.Framing == "chunked" {
 		b.WriteString("Transfer-Encoding: chunked\r\n\r\n")
 		headLen = b.Len()
@@ -319,6 +356,12 @@ func runOnce(c Case, T time.Duration) (v kit.Verdict) {
 	if c.Logger {
 		sh += "-with-har-logger"
 	}
+	if c.Decode {
+		sh += "-with-decoding-logger"
+	}
+	if c.Coding != "" {
+		sh += "-coded-body"
+	}
 	if c.Shaped {
 		sh += "-on-shaped-listener"
 	}
@@ -423,12 +466,21 @@ func runOnce(c Case, T time.Duration) (v kit.Verdict) {
 		res.Header.Set("X-Verif-Resmod", "1")
 		return nil
 	})
-	if c.Logger {
-		hl := har.NewLogger()
+	if c.Logger || c.Decode {
 		grp := fifo.NewGroup()
 		grp.SetAggregateErrors(true)
-		grp.AddRequestModifier(hl)
-		grp.AddResponseModifier(hl)
+		if c.Decode {
+			ml := martianlog.NewLogger()
+			ml.SetDecode(true)
+			ml.SetLogFunc(func(string) {})
+			grp.AddRequestModifier(ml)
+			grp.AddResponseModifier(ml)
+		}
+		if c.Logger {
+			hl := har.NewLogger()
+			grp.AddRequestModifier(hl)
+			grp.AddResponseModifier(hl)
+		}
 		grp.AddResponseModifier(stamp)
 		p.SetRequestModifier(grp)
 		p.SetResponseModifier(grp)
@@ -457,7 +509,11 @@ func runOnce(c Case, T time.Duration) (v kit.Verdict) {
 		if c.Seed%3 == 2 {
 			pbody = string(kit.Text(c.Seed, 6000)) // does not fit the proxy's read buffer
 		}
-		req1 = fmt.Sprintf("POST http://faulty.test/first HTTP/1.1\r\nHost: faulty.test\r\nContent-Length: %d\r\n\r\n%s", len(pbody), pbody)
+		coding := ""
+		if c.Coding != "" {
+			pbody, coding = string(c.wireBody()), "Content-Encoding: "+c.Coding+"\r\n"
+		}
+		req1 = fmt.Sprintf("POST http://faulty.test/first HTTP/1.1\r\nHost: faulty.test\r\n%sContent-Length: %d\r\n\r\n%s", coding, len(pbody), pbody)
 		method1 = "POST"
 	}
 	if c.ConnectFirst {
@@ -561,10 +617,10 @@ func runOnce(c Case, T time.Duration) (v kit.Verdict) {
 			break
 		}
 		body, st, berr := readBody(res1)
-		want := kit.Text(c.Seed+11, c.Body)
+		want := c.wireBody()
 		switch st {
 		case "complete":
-			if c.Cut < len(raw) && !(c.Framing == "cl" && c.Cut >= headLen+c.Body) {
+			if c.Cut < len(raw) && !(c.Framing == "cl" && c.Cut >= headLen+len(want)) {
 				v.Addf(sig("truncated-response-passed-off-as-complete"), "origin was cut at %d of %d bytes yet the client parsed a complete response with %d body bytes", c.Cut, len(raw), len(body))
 				break
 			}
@@ -649,6 +705,15 @@ func classes(c Case) []string {
 	if c.Logger {
 		out = append(out, "har-logger-in-response-path")
 	}
+	if c.Decode {
+		out = append(out, "decoding-logger-in-chain")
+	}
+	if c.Coding != "" {
+		out = append(out, "content-encoding-announced")
+		if c.Body <= 2 {
+			out = append(out, "coded-body-of-0-2-bytes")
+		}
+	}
 	if c.Shaped {
 		out = append(out, "traffic-shaped-listener")
 	}
@@ -679,7 +744,7 @@ var propFaults = &kit.Prop[Case]{ID: "C03", Name: "faults", Rule: "rapid-drawn: 
 	Run: run, NonTrivial: nontrivial, Classes: classes, Journal: true,
 	Gen: func(t *rapid.T) Case {
 		kind := rapid.SampledFrom([]string{"truncate", "truncate", "truncate", "truncate", "dial", "nonhttp", "rt-error"}).Draw(t, "kind")
-		c := Case{Kind: kind, Post: rapid.Bool().Draw(t, "post"), Seed: rapid.Uint64Range(1, 1<<16).Draw(t, "seed"), Logger: rapid.IntRange(0, 2).Draw(t, "logger") == 0, Shaped: rapid.IntRange(0, 4).Draw(t, "shaped") == 0}
+		c := Case{Kind: kind, Post: rapid.Bool().Draw(t, "post"), Seed: rapid.Uint64Range(1, 1<<16).Draw(t, "seed"), Logger: rapid.IntRange(0, 2).Draw(t, "logger") == 0, Decode: rapid.IntRange(0, 2).Draw(t, "decode") == 0, Shaped: rapid.IntRange(0, 4).Draw(t, "shaped") == 0}
 		switch kind {
 		case "dial":
 			c.Dial = rapid.SampledFrom(dialOutcomes).Draw(t, "dial")
@@ -697,10 +762,14 @@ var propFaults = &kit.Prop[Case]{ID: "C03", Name: "faults", Rule: "rapid-drawn: 
 				c.Chunks = rapid.SliceOfN(rapid.SampledFrom([]int{1, 3, 10, 500, 4096}), 1, 4).Draw(t, "chunks")
 			}
 			c.End = rapid.SampledFrom([]string{"fin", "rst"}).Draw(t, "end")
+			if rapid.IntRange(0, 3).Draw(t, "coded") == 0 {
+				c.Coding = rapid.SampledFrom([]string{"deflate", "gzip", "DEFLATE", "x-gzip"}).Draw(t, "coding")
+				c.Body = rapid.SampledFrom([]int{0, 1, 2, 3, 10, 1000}).Draw(t, "coded_body")
+			}
 			refusal := rapid.IntRange(0, 5).Draw(t, "refusal") == 0
 			if refusal {
 				c.Refusal = rapid.SampledFrom([]int{403, 407, 500, 503, 504}).Draw(t, "status")
-				c.ConnectFirst, c.Downstream, c.Post, c.Logger, c.Shaped = true, true, false, false, false
+				c.ConnectFirst, c.Downstream, c.Post, c.Logger, c.Shaped, c.Decode, c.Coding = true, true, false, false, false, false, ""
 				if c.Body > 5000 {
 					c.Body = 5000
 				}
@@ -839,6 +908,21 @@ func TestDialAndNonHTTPMatrix(t *testing.T) {
 			c.Cut, c.End = len(raw), "keep"
 			if !yield(c) {
 				return
+			}
+		}
+		// bodies that announce a coding and are 0, 1, 2 ... bytes of it, complete as framed, through the logging chain cmd/proxy wires
+		for _, coding := range []string{"deflate", "gzip", "DEFLATE"} {
+			for _, body := range []int{0, 1, 2, 3, 10, 1000} {
+				for i, framing := range []string{"cl", "chunked"} {
+					for _, post := range []bool{false, true} {
+						c := Case{Kind: "truncate", Framing: framing, Body: body, Coding: coding, End: "fin", Post: post, Decode: true, Logger: (body+i)%2 == 0}
+						raw, _ := c.template()
+						c.Cut = len(raw)
+						if !yield(c) {
+							return
+						}
+					}
+				}
 			}
 		}
 		// the failure comes when most of the idle window had passed before the request was sent
